@@ -232,6 +232,7 @@ def check(run: Run) -> None:
              "entry by entry (exact modulo 2 pi; the branch itself on a grid covering every sign pattern and the coordinate planes)")
     global DENSE
     DENSE = run.tier == "thorough"
+    _x7_stateless(run)
     info = _properties(run)
     S = _read_tables(run, SC, info, vectors=False)
     M = _read_tables(run, VC, info, vectors=True)
@@ -374,6 +375,83 @@ class _XPoint:
 
 class _Stop(Exception):
     pass
+
+
+def _x7_stateless(run: Run) -> None:
+    """conversions are functions of their arguments: no result is remembered across calls, least of all under the identity of a temporary"""
+    run.rule("X7", "conversion results are not cached across calls under id(...) keys (the address of a dead point is reused by the next one); an iterable of coordinates is "
+             "materialised before it is traversed a second time")
+    for modname in (PKGM + ".convert", PKGM + ".express_base_scalars", PKGM + ".express_base_vectors", "symplyphysics.core.experimental.points"):
+        m = run.src.need(modname)
+        containers = {t.id for st in m.tree.body if isinstance(st, (ast.Assign, ast.AnnAssign)) for t in ([st.target] if isinstance(st, ast.AnnAssign) else st.targets)
+                      if isinstance(t, ast.Name) and isinstance(st.value, (ast.Dict, ast.List, ast.Set, ast.Call)) and
+                      (not isinstance(st.value, ast.Call) or dotted(st.value.func) in ("dict", "list", "set", "defaultdict", "WeakValueDictionary", "OrderedDict"))}
+        run.ob("X7", f"{modname}:no-identity-keyed-cache")
+        for fn in [x for x in ast.walk(m.tree) if isinstance(x, ast.FunctionDef)]:
+            decos = [dotted(d.func) if isinstance(d, ast.Call) else dotted(d) for d in fn.decorator_list]
+            stores = [x for x in ast.walk(fn) if (isinstance(x, ast.Assign) and any(isinstance(t, ast.Subscript) and isinstance(t.value, ast.Name) and t.value.id in containers for t in x.targets))
+                      or (isinstance(x, ast.Call) and isinstance(x.func, ast.Attribute) and x.func.attr in ("setdefault", "update", "append", "add") and isinstance(x.func.value, ast.Name)
+                          and x.func.value.id in containers)]
+            if not stores:
+                continue
+            uses_id = any(isinstance(y, ast.Call) and dotted(y.func) == "id" for y in ast.walk(fn))
+            if uses_id:
+                run.violate("X7", f"{modname}:{fn.name}:identity-keyed-cache", m, stores[0],
+                            f"{fn.name} remembers its results in a module-level container under id(...) keys: when a point is garbage-collected the next point created at the "
+                            f"same address receives the stale conversion - conversions of short-lived points in a loop move them")
+            else:
+                raise AnalysisError(f"C15: {modname}.{fn.name} keeps state across calls in a module-level container; whether that preserves the conversions is not decided")
+    # one-shot iterables
+    pm_ = run.src.need("symplyphysics.core.experimental.points")
+    helpers = {f_.name: f_ for f_ in pm_.tree.body if isinstance(f_, ast.FunctionDef)}
+
+    def consumes(fn: ast.FunctionDef, pname: str, depth: int = 0) -> list:
+        """nodes of `fn` that traverse the ORIGINAL value of parameter `pname` (before any re-binding in straight-line order)"""
+        out = []
+        rebound_at = min([a.lineno for a in ast.walk(fn) if isinstance(a, ast.Assign) and any(isinstance(t, ast.Name) and t.id == pname for t in a.targets)] or [10**9])
+        for x in ast.walk(fn):
+            if getattr(x, "lineno", 0) > rebound_at:
+                continue
+            if isinstance(x, ast.Call):
+                d = dotted(x.func) or ""
+                hit = [a for a in x.args if isinstance(a, ast.Name) and a.id == pname]
+                if not hit:
+                    continue
+                if d in ("tuple", "list", "zip", "sorted", "set", "dict", "enumerate", "map", "sum", "iter"):
+                    out.append(x)
+                elif d in helpers and depth < 2:
+                    h = helpers[d]
+                    k = x.args.index(hit[0])
+                    if k < len(h.args.args) and consumes(h, h.args.args[k].arg, depth + 1):
+                        out.append(x)
+            elif isinstance(x, (ast.For, ast.comprehension)) and isinstance(x.iter, ast.Name) and x.iter.id == pname:
+                out.append(x)
+        return out
+
+    for cls in [c for c in pm_.tree.body if isinstance(c, ast.ClassDef)]:
+        for fn in [f_ for f_ in cls.body if isinstance(f_, ast.FunctionDef) and f_.name in ("__init__", "__new__")]:
+            for a in fn.args.args[1:]:
+                ann = dotted(a.annotation.value) if isinstance(a.annotation, ast.Subscript) else dotted(a.annotation) if a.annotation is not None else None
+                if ann != "Iterable":
+                    continue
+                run.ob("X7", f"{cls.name}.{fn.name}:{a.arg}:single-traversal")
+                sites = consumes(fn, a.arg)
+                # sites inside different branches of one `if` exclude each other
+                def branch_of(x):
+                    for t in ast.walk(fn):
+                        if isinstance(t, ast.If):
+                            if any(y is x for s_ in t.body for y in ast.walk(s_)):
+                                return (id(t), True)
+                            if any(y is x for s_ in t.orelse for y in ast.walk(s_)):
+                                return (id(t), False)
+                    return None
+                pairs = [(p_, q_) for i_, p_ in enumerate(sites) for q_ in sites[i_ + 1:]
+                         if not (branch_of(p_) and branch_of(q_) and branch_of(p_)[0] == branch_of(q_)[0] and branch_of(p_)[1] != branch_of(q_)[1])]
+                if pairs:
+                    p_, q_ = pairs[0]
+                    run.violate("X7", f"symplyphysics.core.experimental.points:{cls.name}.{fn.name}:{a.arg}:traversed-twice", pm_, q_,
+                                f"{cls.name}.{fn.name} traverses its iterable argument `{a.arg}` twice (`{norm(p_, 40)}` and `{norm(q_, 40)}`) without keeping the materialised copy: "
+                                f"a generator or map is exhausted by the first traversal, the point silently ends up without coordinates")
 
 
 def _x4(run: Run, S: dict, M: dict) -> None:
